@@ -325,9 +325,12 @@ package formula
 
 // Operators and punctuation (C14), written from the statement: matched longest first.
 //@ spec at(t string, p int, k int, c int) bool := p + k < len(t) && t[p+k] == c
-//@ spec opTok(t string, p int) int := t[p] == '!' ? (at(t, p, 1, '=') ? (at(t, p, 2, '=') ? SK_ExclamationEqualsEquals : SK_ExclamationEquals) : (at(t, p, 1, '!') ? SK_ExclamationExclamation : (at(t, p, 1, '.') ? SK_ExclamationDot : SK_Exclamation))) : (t[p] == '=' ? (at(t, p, 1, '=') ? (at(t, p, 2, '=') ? SK_EqualsEqualsEquals : SK_EqualsEquals) : SK_Equals) : (t[p] == '&' ? (at(t, p, 1, '&') ? SK_AmpersandAmpersand : SK_Ampersand) : (t[p] == '|' ? (at(t, p, 1, '|') ? SK_BarBar : SK_Bar) : (t[p] == '?' ? (at(t, p, 1, '?') ? SK_QuestionQuestion : SK_Question) : (t[p] == '<' ? (at(t, p, 1, '=') ? SK_LessThanEquals : SK_LessThan) : (t[p] == '>' ? (at(t, p, 1, '=') ? SK_GreaterThanEquals : SK_GreaterThan) : (t[p] == '.' ? ((at(t, p, 1, '.') && at(t, p, 2, '.')) ? SK_DotDotDot : SK_Dot) : opTok1(t[p]))))))))
+// `!.` is the asserting member access only when the dot does not start a number: `!.5` is `!` applied
+// to `.5`, exactly as `! .5` is (spacing is insignificant)
+//@ spec exDot(t string, p int) bool := at(t, p, 1, '.') && !(p + 2 < len(t) && isDigitCh(t[p+2]))
+//@ spec opTok(t string, p int) int := t[p] == '!' ? (at(t, p, 1, '=') ? (at(t, p, 2, '=') ? SK_ExclamationEqualsEquals : SK_ExclamationEquals) : (at(t, p, 1, '!') ? SK_ExclamationExclamation : (exDot(t, p) ? SK_ExclamationDot : SK_Exclamation))) : (t[p] == '=' ? (at(t, p, 1, '=') ? (at(t, p, 2, '=') ? SK_EqualsEqualsEquals : SK_EqualsEquals) : SK_Equals) : (t[p] == '&' ? (at(t, p, 1, '&') ? SK_AmpersandAmpersand : SK_Ampersand) : (t[p] == '|' ? (at(t, p, 1, '|') ? SK_BarBar : SK_Bar) : (t[p] == '?' ? (at(t, p, 1, '?') ? SK_QuestionQuestion : SK_Question) : (t[p] == '<' ? (at(t, p, 1, '=') ? SK_LessThanEquals : SK_LessThan) : (t[p] == '>' ? (at(t, p, 1, '=') ? SK_GreaterThanEquals : SK_GreaterThan) : (t[p] == '.' ? ((at(t, p, 1, '.') && at(t, p, 2, '.')) ? SK_DotDotDot : SK_Dot) : opTok1(t[p]))))))))
 //@ spec opTok1(c int) int := c == '(' ? SK_OpenParen : (c == ')' ? SK_CloseParen : (c == '%' ? SK_Percent : (c == '*' ? SK_Asterisk : (c == '+' ? SK_Plus : (c == ',' ? SK_Comma : (c == '-' ? SK_Minus : (c == '/' ? SK_Slash : (c == ':' ? SK_Colon : (c == '[' ? SK_OpenBracket : (c == ']' ? SK_CloseBracket : (c == '^' ? SK_Caret : SK_Tilde)))))))))))
-//@ spec opLen(t string, p int) int := (t[p] == '!' || t[p] == '=') ? (at(t, p, 1, '=') ? (at(t, p, 2, '=') ? 3 : 2) : ((t[p] == '!' && (at(t, p, 1, '!') || at(t, p, 1, '.'))) ? 2 : 1)) : (((t[p] == '&' && at(t, p, 1, '&')) || (t[p] == '|' && at(t, p, 1, '|')) || (t[p] == '?' && at(t, p, 1, '?')) || ((t[p] == '<' || t[p] == '>') && at(t, p, 1, '='))) ? 2 : ((t[p] == '.' && at(t, p, 1, '.') && at(t, p, 2, '.')) ? 3 : 1))
+//@ spec opLen(t string, p int) int := (t[p] == '!' || t[p] == '=') ? (at(t, p, 1, '=') ? (at(t, p, 2, '=') ? 3 : 2) : ((t[p] == '!' && (at(t, p, 1, '!') || exDot(t, p))) ? 2 : 1)) : (((t[p] == '&' && at(t, p, 1, '&')) || (t[p] == '|' && at(t, p, 1, '|')) || (t[p] == '?' && at(t, p, 1, '?')) || ((t[p] == '<' || t[p] == '>') && at(t, p, 1, '='))) ? 2 : ((t[p] == '.' && at(t, p, 1, '.') && at(t, p, 2, '.')) ? 3 : 1))
 //@ spec asciiIdStart(c int) bool := (c >= 'A' && c <= 'Z') || (c >= 'a' && c <= 'z') || c == '$' || c == '_'
 //@ spec isOpCh(c int) bool := c == '!' || c == '=' || c == '&' || c == '|' || c == '?' || c == '<' || c == '>' || c == '.' || c == '(' || c == ')' || c == '%' || c == '*' || c == '+' || c == ',' || c == '-' || c == '/' || c == ':' || c == '[' || c == ']' || c == '^' || c == '~'
 
